@@ -50,45 +50,57 @@ HeapOfSeq(s, rt) ==
                   ELSE [k |-> ent(id)[2], v |-> 0, py |-> ent(id)[3], cm |-> ent(id)[4]])
             ELSE ScalarRec(id)]
 
-TInit == /\ tid \in 1..Len(Traces)
-         /\ l = 1
-         /\ heap = HeapOfSeq(Traces[tid].start, Traces[tid].root)
+\* One initial state; the trace is chosen by two actions (block, then trace within the block) so that the
+\* workers share the work of setting the traces up (TLC computes initial states on one thread).
+Block == 40
+NBlocks == (Len(Traces) + Block - 1) \div Block
+TInit == /\ tid = 0 /\ l = 0
+         /\ heap = <<>>
          /\ live = TRUE /\ verdict = "ok" /\ vstep = 0 /\ viol = 0 /\ nexpl = 0 /\ expl = {} /\ fired = {}
          /\ diag = <<>>
+TPickBlock == /\ tid = 0 /\ l = 0
+              /\ \E b \in 1..NBlocks : l' = 0 - b
+              /\ UNCHANGED <<tid, heap, live, verdict, vstep, viol, nexpl, expl, fired, diag>>
+TPickTrace == /\ tid = 0 /\ l < 0
+              /\ \E t \in (((0 - l) - 1) * Block + 1)..(IF (0 - l) * Block < Len(Traces) THEN (0 - l) * Block ELSE Len(Traces)) :
+                    /\ tid' = t
+                    /\ heap' = HeapOfSeq(Traces[t].start, Traces[t].root)
+              /\ l' = 1
+              /\ UNCHANGED <<live, verdict, vstep, viol, nexpl, expl, fired, diag>>
 
+\* values bound through singleton sets (\E x \in {expr}) are evaluated once
 TStep ==
-    /\ l <= Len(Ev)
+    /\ tid > 0 /\ l <= Len(Ev)
     /\ l' = l + 1
-    /\ LET e    == Ev[l]
-           lh   == HeapOfSeq(e.s, Root)
-           lbad == Broken(lh, Root) \cup ToSet(e.rb)      \* the property on the LOGGED state
-       IN IF live /\ Applicable(heap, Root, e.op)
-          THEN LET r  == Apply(heap, Root, e.op)
-                   sm == HeapSeq(r.h, Root) = e.s
-                   em == r.err = "?" \/ r.err = e.e
-                   vm == EvalTok(r.h, Root) = e.ev
-                   f2 == fired \cup r.fired
-                   explained == ToSet(e.rb) \subseteq Broken(r.h, Root)
-               IN /\ heap' = r.h
-                  /\ fired' = f2
-                  /\ live' = (sm /\ vm)
-                  /\ verdict' = IF verdict # "ok" THEN verdict
-                                ELSE IF ~sm THEN "state" ELSE IF ~vm THEN "eval" ELSE IF ~em THEN "err" ELSE "ok"
-                  /\ vstep' = IF verdict = "ok" /\ ~(sm /\ vm /\ em) THEN l ELSE vstep
-                  /\ diag' = IF verdict = "ok" /\ ~(sm /\ vm /\ em)
-                             THEN <<HeapSeq(r.h, Root), r.err, EvalTok(r.h, Root)>> ELSE diag
-                  /\ viol' = IF viol = 0 /\ lbad # {} /\ ~(sm /\ vm /\ explained) THEN l ELSE viol
-                  /\ nexpl' = IF lbad # {} /\ sm /\ vm /\ explained THEN nexpl + 1 ELSE nexpl
-                  /\ expl' = IF lbad # {} /\ sm /\ vm /\ explained THEN expl \cup f2 ELSE expl
-          ELSE \* the specification lost the implementation at an earlier event (or cannot find the target):
-               \* the remaining events are consumed, nothing after a disagreement is judged
-               /\ verdict' = IF verdict = "ok" THEN "target" ELSE verdict
-               /\ vstep' = IF verdict = "ok" THEN l ELSE vstep
-               /\ live' = FALSE
-               /\ UNCHANGED <<heap, fired, viol, nexpl, expl, diag>>
+    /\ \E e \in {Ev[l]} :
+       IF live /\ Applicable(heap, Root, e.op)
+       THEN \E r \in {Apply(heap, Root, e.op)} :
+            \E ms \in {HeapSeq(r.h, Root)}, mv \in {EvalTok(r.h, Root)} :
+            \E sm \in {ms = e.s}, vm \in {mv = e.ev}, em \in {r.err = "?" \/ r.err = e.e} :
+            \* the property on the LOGGED state: the formulas on the logged heap (= the model heap when sm) and what the
+            \* harness saw on the real objects
+            \E lbad \in {Broken(IF sm THEN r.h ELSE HeapOfSeq(e.s, Root), Root) \cup ToSet(e.rb)} :
+            \E explained \in {sm /\ vm /\ ToSet(e.rb) \subseteq Broken(r.h, Root)} :
+               /\ heap' = r.h
+               /\ fired' = fired \cup r.fired
+               /\ live' = (sm /\ vm)
+               /\ verdict' = IF verdict # "ok" THEN verdict
+                             ELSE IF ~sm THEN "state" ELSE IF ~vm THEN "eval" ELSE IF ~em THEN "err" ELSE "ok"
+               /\ vstep' = IF verdict = "ok" /\ ~(sm /\ vm /\ em) THEN l ELSE vstep
+               /\ diag' = IF verdict = "ok" /\ ~(sm /\ vm /\ em) THEN <<ms, r.err, mv>> ELSE diag
+               /\ viol' = IF viol = 0 /\ lbad # {} /\ ~explained THEN l ELSE viol
+               /\ nexpl' = IF lbad # {} /\ explained THEN nexpl + 1 ELSE nexpl
+               /\ expl' = IF lbad # {} /\ explained THEN expl \cup fired \cup r.fired ELSE expl
+       ELSE \* the specification lost the implementation at an earlier event (or cannot find the target):
+            \* the remaining events are consumed, nothing after a disagreement is judged
+            /\ verdict' = IF verdict = "ok" THEN "target" ELSE verdict
+            /\ vstep' = IF verdict = "ok" THEN l ELSE vstep
+            /\ live' = FALSE
+            /\ UNCHANGED <<heap, fired, viol, nexpl, expl, diag>>
     /\ UNCHANGED tid
 
-TSpec == TInit /\ [][TStep]_tvars
+TNext == TPickBlock \/ TPickTrace \/ TStep
+TSpec == TInit /\ [][TNext]_tvars
 
 \* NodePath text form on the recorded paths: join gives the recorded text, split gives the recorded components back
 PathBad ==
@@ -99,7 +111,7 @@ PathBad ==
 
 \* one line per trace, at the state where the whole trace is consumed
 Report ==
-    (l = Len(Ev) + 1) =>
+    (tid > 0 /\ l = Len(Ev) + 1) =>
         PrintT(ToJson([trace |-> Traces[tid].tid, verdict |-> verdict, vstep |-> vstep, viol |-> viol, nexpl |-> nexpl,
                        expl |-> expl, fired |-> fired, pathbad |-> Cardinality(PathBad), diag |-> diag]))
 =============================================================================
